@@ -11,9 +11,11 @@ import (
 	"io"
 	"os"
 	"path/filepath"
+	"runtime"
 	"sort"
 	"strconv"
 	"strings"
+	"time"
 
 	"pgregory.net/rapid"
 	"verif/harness/lib/refexpr"
@@ -117,10 +119,30 @@ func (c statCase) flags(format string) []string {
 }
 
 // runStat runs the real benchstat entry point in-process.
+//
+// An invocation on these inputs takes milliseconds; one that has not returned
+// after runStatBudget (with the race detector on and the machine busy) is
+// reported as an error "did not return": for benchstat that is an observable
+// outcome like any other (no output), not a timing measurement.
+const runStatBudget = 60 * time.Second
+
 func runStat(args []string) (stdout, stderr string, err error) {
-	var o, e bytes.Buffer
-	err = benchstat(&o, &e, args)
-	return o.String(), e.String(), err
+	type res struct {
+		o, e string
+		err  error
+	}
+	done := make(chan res, 1)
+	go func() {
+		var o, e bytes.Buffer
+		err := benchstat(&o, &e, args)
+		done <- res{o.String(), e.String(), err}
+	}()
+	select {
+	case r := <-done:
+		return r.o, r.e, r.err
+	case <-time.After(runStatBudget):
+		return "", "", fmt.Errorf("benchstat did not return within %v (GOMAXPROCS=%d, %d goroutines alive), args %q", runStatBudget, runtime.GOMAXPROCS(0), runtime.NumGoroutine(), args)
+	}
 }
 
 // ---------------------------------------------------------------------------
@@ -587,4 +609,3 @@ func normWarning(msg string) string {
 	}
 	return msg
 }
-
